@@ -4,8 +4,8 @@
 From Coq Require Export List NArith ZArith Bool Arith Lia.
 Export ListNotations.
 
-Definition byte := N.
-Definition bytes := list N.
+Notation byte := N (only parsing).
+Notation bytes := (list N) (only parsing).
 
 Definition beqb (a b : byte) : bool := N.eqb a b.
 
